@@ -324,7 +324,7 @@ def _on_cycle(d, cands):
     part of a recursion, hence structure and not a helper."""
     graph = {}
     for f in d["fns"]:
-        graph.setdefault(f["path"], set()).update(b["term"]["f"]["path"] for b in f["blocks"] if b["term"]["k"] == "call" and "f" in b["term"] and not b["cleanup"])
+        graph.setdefault(f["path"], set()).update(_target(b["term"]) for b in f["blocks"] if b["term"]["k"] == "call" and "f" in b["term"] and not b["cleanup"])
     out = set()
     for p in cands:
         seen, stack = set(), list(graph.get(p, ()))
@@ -337,6 +337,15 @@ def _on_cycle(d, cands):
                 seen.add(q)
                 stack.extend(graph.get(q, ()))
     return out
+
+
+def _target(t):
+    """def path a call terminator resolves to (the impl method for a resolved trait call)."""
+    f = t["f"]
+    r = f.get("res")
+    if isinstance(r, dict) and r.get("local") and r.get("path"):
+        return r["path"]
+    return f["path"]
 
 
 def apply(d):
@@ -369,7 +378,7 @@ def apply(d):
     summary["new"] = sorted(new)
 
     def callees(f):
-        return {b["term"]["f"]["path"] for b in f["blocks"] if b["term"]["k"] == "call" and "f" in b["term"] and not b["cleanup"]}
+        return {_target(b["term"]) for b in f["blocks"] if b["term"]["k"] == "call" and "f" in b["term"] and not b["cleanup"]}
     # recursive new functions are not inlined
     graph = {p: callees(f) & set(new) for p, f in new.items()}
     rec = set()
@@ -389,11 +398,11 @@ def apply(d):
     left = {}
     for f in d["fns"]:
         for _ in range(MAX_ROUNDS):
-            sites = [i for i, b in enumerate(f["blocks"]) if not b["cleanup"] and b["term"]["k"] == "call" and "f" in b["term"] and b["term"]["f"]["path"] in inl and b["term"]["f"]["path"] != f["path"] and not b["term"].get("noinline")]
+            sites = [i for i, b in enumerate(f["blocks"]) if not b["cleanup"] and b["term"]["k"] == "call" and "f" in b["term"] and _target(b["term"]) in inl and _target(b["term"]) != f["path"] and not b["term"].get("noinline")]
             if not sites:
                 break
             for i in sites:
-                cal = pristine[f["blocks"][i]["term"]["f"]["path"]]
+                cal = pristine[_target(f["blocks"][i]["term"])]
                 if len(f["blocks"]) + len(cal["blocks"]) > MAX_BLOCKS or len(f["blocks"][i]["term"]["args"]) != cal["argc"]:
                     left[cal["path"]] = left.get(cal["path"], 0) + 1
                     f["blocks"][i]["term"] = dict(f["blocks"][i]["term"], noinline=True)
@@ -409,8 +418,8 @@ def apply(d):
             continue  # calls among new helpers were inlined wherever the helper itself was
         for b in f["blocks"]:
             t = b["term"]
-            if t["k"] == "call" and "f" in t and t["f"]["path"] in new:
-                still_called.add(t["f"]["path"])
+            if t["k"] == "call" and "f" in t and _target(t) in new:
+                still_called.add(_target(t))
     n_inl = {}
     for f in d["fns"]:
         for p in f.get("inlined", []):
